@@ -646,10 +646,12 @@ namespace xsimd
         XSIMD_INLINE batch<T, A> slide_left(batch<T, A> const& x, requires_arch<emulated<N>>) noexcept
         {
             constexpr size_t size = batch<T, A>::size;
+            // a count beyond the register shifts everything out, as on the native architectures
+            constexpr size_t m = M < sizeof(T) * size ? M : sizeof(T) * size;
             std::array<T, size> result;
             char* raw_data = reinterpret_cast<char*>(result.data());
-            memset(raw_data, 0, M);
-            memcpy(raw_data + M, reinterpret_cast<const char*>(x.data.data()), sizeof(T) * result.size() - M);
+            memset(raw_data, 0, m);
+            memcpy(raw_data + m, reinterpret_cast<const char*>(x.data.data()), sizeof(T) * result.size() - m);
             return result;
         }
 
@@ -658,10 +660,11 @@ namespace xsimd
         XSIMD_INLINE batch<T, A> slide_right(batch<T, A> const& x, requires_arch<emulated<N>>) noexcept
         {
             constexpr size_t size = batch<T, A>::size;
+            constexpr size_t m = M < sizeof(T) * size ? M : sizeof(T) * size;
             std::array<T, size> result;
             char* raw_data = reinterpret_cast<char*>(result.data());
-            memcpy(raw_data, reinterpret_cast<const char*>(x.data.data()) + M, sizeof(T) * result.size() - M);
-            memset(raw_data + sizeof(T) * result.size() - M, 0, M);
+            memcpy(raw_data, reinterpret_cast<const char*>(x.data.data()) + m, sizeof(T) * result.size() - m);
+            memset(raw_data + sizeof(T) * result.size() - m, 0, m);
             return result;
         }
 
